@@ -41,6 +41,22 @@ fn main() {
             check::run_check(&prop, &tier)
         }
         Some("replay") => check::run_replay(Path::new(args.get(2).map(|s| s.as_str()).unwrap_or(""))),
+        Some("minimise") => {
+            // rssv minimise <replay file>: shrink the case of a replay-like file in place
+            let path = args.get(2).cloned().unwrap_or_default();
+            let s = std::fs::read_to_string(&path).expect("read");
+            let mut r: serde_json::Value = serde_json::from_str(&s).expect("json");
+            let prop = r["property"].as_str().unwrap_or("").to_string();
+            let chk = r["check"].as_str().unwrap_or("").to_string();
+            let profile = r["profile"].as_str().unwrap_or("release").to_string();
+            let (c, n) = shrink::minimise(&profile, &r["case"], &prop, &chk, check::cpu_budget("quick"), 400);
+            r["case"] = c;
+            r["minimised"] = serde_json::json!(true);
+            r["shrink_executions"] = serde_json::json!(n);
+            std::fs::write(&path, serde_json::to_string_pretty(&r).unwrap()).expect("write");
+            println!("minimised with {} executions", n);
+            0
+        }
         Some("selftest") => selftest::run(args.get(2).map(|s| s.as_str()).unwrap_or("quick")),
         Some("gen") => {
             let sim = args.get(2).map(|s| s.as_str()).unwrap_or("a");
